@@ -59,8 +59,7 @@ Qed.
 Lemma upd_id : forall A (l : list A) k x, nth_error l k = Some x -> upd l k x = l.
 Proof.
   induction l; destruct k; simpl; intros; try congruence.
-  - inversion H. reflexivity.
-  - f_equal. auto.
+  f_equal. auto.
 Qed.
 
 Lemma upd_upd : forall A (l : list A) k x y, upd (upd l k x) k y = upd l k y.
@@ -129,4 +128,299 @@ Proof.
   unfold op_sem at 1. cbn [sem_itousize]. step.
   unfold op_sem at 1. cbn [sem_get]. rewrite (with_cell_in n cells i Hlen Hn) by assumption.
   rewrite Hc. step. reflexivity.
+Qed.
+
+Ltac opstep := unfold op_sem at 1;
+  cbn [sem_itousize sem_get sem_set sem_borrow sem_return sem_clone sem_panic sem_iadd
+       sem_discard_all_borrowed sem_discard_empty sem_unpack_tuple]; step.
+
+Lemma read_out_of_range_l : forall n cells i,
+  length cells = n -> Z.of_nat n <= two63 -> is_int64 i -> (i < 0 \/ Z.of_nat n <= i) ->
+  run_outs (seq_get_classical n) outs_get_classical [VArr cells; VInt i] = Panic msg_index_oob.
+Proof.
+  intros n cells i Hlen Hn Hi Ho.
+  unfold run_outs, seq_get_classical, outs_get_classical. step. opstep.
+  unfold op_sem at 1. cbn [sem_get]. rewrite (with_cell_out n cells i Hlen Hn) by assumption.
+  step. opstep. opstep. reflexivity.
+Qed.
+
+Lemma read_lent_l : forall n cells i,
+  length cells = n -> Z.of_nat n <= two63 -> 0 <= i < Z.of_nat n ->
+  nth_error cells (Z.to_nat i) = Some None ->
+  run_outs (seq_get_classical n) outs_get_classical [VArr cells; VInt i] = Panic msg_already_borrowed.
+Proof.
+  intros n cells i Hlen Hn Hi Hc.
+  unfold run_outs, seq_get_classical, outs_get_classical. step. opstep.
+  unfold op_sem at 1. cbn [sem_get]. rewrite (with_cell_in n cells i Hlen Hn) by assumption.
+  rewrite Hc. reflexivity.
+Qed.
+
+Lemma write_in_range_l : forall n cells i v old,
+  length cells = n -> Z.of_nat n <= two63 -> 0 <= i < Z.of_nat n ->
+  nth_error cells (Z.to_nat i) = Some (Some old) ->
+  run_outs (seq_set_classical n) outs_set_classical [VArr cells; VInt i; v]
+  = Ok [VArr (upd cells (Z.to_nat i) (Some v))].
+Proof.
+  intros n cells i v old Hlen Hn Hi Hc.
+  unfold run_outs, seq_set_classical, outs_set_classical. step. opstep.
+  unfold op_sem at 1. cbn [sem_set]. rewrite (with_cell_in n cells i Hlen Hn) by assumption.
+  rewrite Hc. step. reflexivity.
+Qed.
+
+Lemma write_out_of_range_l : forall n cells i v,
+  length cells = n -> Z.of_nat n <= two63 -> is_int64 i -> (i < 0 \/ Z.of_nat n <= i) ->
+  run_outs (seq_set_classical n) outs_set_classical [VArr cells; VInt i; v] = Panic msg_index_oob.
+Proof.
+  intros n cells i v Hlen Hn Hi Ho.
+  unfold run_outs, seq_set_classical, outs_set_classical. step. opstep.
+  unfold op_sem at 1. cbn [sem_set]. rewrite (with_cell_out n cells i Hlen Hn) by assumption.
+  step. opstep. opstep. reflexivity.
+Qed.
+
+(* ------------------------------------------------ linear elements: borrow and return *)
+
+Lemma nth_error_ext' : forall A (l1 l2 : list A), (forall k, nth_error l1 k = nth_error l2 k) -> l1 = l2.
+Proof.
+  induction l1 as [|a l1 IH]; destruct l2 as [|b l2]; intros H; auto.
+  - specialize (H O). discriminate.
+  - specialize (H O). discriminate.
+  - pose proof (H O) as H0. simpl in H0. inversion H0. f_equal. apply IH. intros k. apply (H (S k)).
+Qed.
+
+Lemma nth_error_lt : forall A (l : list A) k x, nth_error l k = Some x -> (k < length l)%nat.
+Proof. intros. apply nth_error_Some. congruence. Qed.
+
+Lemma borrow_in_range_l : forall n cells i v,
+  length cells = n -> Z.of_nat n <= two63 -> 0 <= i < Z.of_nat n ->
+  nth_error cells (Z.to_nat i) = Some (Some v) ->
+  run_outs (seq_get_linear n) outs_get_linear [VArr cells; VInt i]
+  = Ok [v; VArr (upd cells (Z.to_nat i) None)].
+Proof.
+  intros n cells i v Hlen Hn Hi Hc.
+  unfold run_outs, seq_get_linear, outs_get_linear. step. opstep.
+  unfold op_sem at 1. cbn [sem_borrow]. rewrite (with_cell_in n cells i Hlen Hn) by assumption.
+  rewrite Hc. step. reflexivity.
+Qed.
+
+Lemma borrow_out_of_range_l : forall n cells i,
+  length cells = n -> Z.of_nat n <= two63 -> is_int64 i -> (i < 0 \/ Z.of_nat n <= i) ->
+  run_outs (seq_get_linear n) outs_get_linear [VArr cells; VInt i] = Panic msg_op_oob.
+Proof.
+  intros n cells i Hlen Hn Hi Ho.
+  unfold run_outs, seq_get_linear, outs_get_linear. step. opstep.
+  unfold op_sem at 1. cbn [sem_borrow]. rewrite (with_cell_out n cells i Hlen Hn) by assumption.
+  reflexivity.
+Qed.
+
+Lemma borrow_lent_l : forall n cells i,
+  length cells = n -> Z.of_nat n <= two63 -> 0 <= i < Z.of_nat n ->
+  nth_error cells (Z.to_nat i) = Some None ->
+  run_outs (seq_get_linear n) outs_get_linear [VArr cells; VInt i] = Panic msg_already_borrowed.
+Proof.
+  intros n cells i Hlen Hn Hi Hc.
+  unfold run_outs, seq_get_linear, outs_get_linear. step. opstep.
+  unfold op_sem at 1. cbn [sem_borrow]. rewrite (with_cell_in n cells i Hlen Hn) by assumption.
+  rewrite Hc. reflexivity.
+Qed.
+
+Lemma return_in_range_l : forall n cells i v,
+  length cells = n -> Z.of_nat n <= two63 -> 0 <= i < Z.of_nat n ->
+  nth_error cells (Z.to_nat i) = Some None ->
+  run_outs (seq_set_linear n) outs_set_linear [VArr cells; VInt i; v]
+  = Ok [VArr (upd cells (Z.to_nat i) (Some v))].
+Proof.
+  intros n cells i v Hlen Hn Hi Hc.
+  unfold run_outs, seq_set_linear, outs_set_linear. step. opstep.
+  unfold op_sem at 1. cbn [sem_return]. rewrite (with_cell_in n cells i Hlen Hn) by assumption.
+  rewrite Hc. step. reflexivity.
+Qed.
+
+Lemma return_out_of_range_l : forall n cells i v,
+  length cells = n -> Z.of_nat n <= two63 -> is_int64 i -> (i < 0 \/ Z.of_nat n <= i) ->
+  run_outs (seq_set_linear n) outs_set_linear [VArr cells; VInt i; v] = Panic msg_op_oob.
+Proof.
+  intros n cells i v Hlen Hn Hi Ho.
+  unfold run_outs, seq_set_linear, outs_set_linear. step. opstep.
+  unfold op_sem at 1. cbn [sem_return]. rewrite (with_cell_out n cells i Hlen Hn) by assumption.
+  reflexivity.
+Qed.
+
+Lemma return_full_l : forall n cells i v w,
+  length cells = n -> Z.of_nat n <= two63 -> 0 <= i < Z.of_nat n ->
+  nth_error cells (Z.to_nat i) = Some (Some w) ->
+  run_outs (seq_set_linear n) outs_set_linear [VArr cells; VInt i; v] = Panic msg_not_borrowed.
+Proof.
+  intros n cells i v w Hlen Hn Hi Hc.
+  unfold run_outs, seq_set_linear, outs_set_linear. step. opstep.
+  unfold op_sem at 1. cbn [sem_return]. rewrite (with_cell_in n cells i Hlen Hn) by assumption.
+  rewrite Hc. reflexivity.
+Qed.
+
+(** g(qs[i]) *)
+Lemma use1_in_range_l : forall n g cells i v,
+  length cells = n -> Z.of_nat n <= two63 -> 0 <= i < Z.of_nat n ->
+  nth_error cells (Z.to_nat i) = Some (Some v) ->
+  run_outs (seq_use1 n g) outs_use1 [VArr cells; VInt i] = Ok [VArr cells].
+Proof.
+  intros n g cells i v Hlen Hn Hi Hc.
+  pose proof (nth_error_lt _ _ _ _ Hc) as Hk.
+  unfold run_outs, seq_use1, outs_use1. step. opstep.
+  unfold op_sem at 1. cbn [sem_borrow]. rewrite (with_cell_in n cells i Hlen Hn) by assumption.
+  rewrite Hc. step. unfold op_sem at 1. step. opstep.
+  unfold op_sem at 1. cbn [sem_return].
+  rewrite (with_cell_in n _ i (eq_trans (upd_length _ _ _ _) Hlen) Hn) by assumption.
+  rewrite upd_same by assumption. step. rewrite upd_upd. rewrite upd_id by assumption. reflexivity.
+Qed.
+
+Lemma use1_out_of_range_l : forall n g cells i,
+  length cells = n -> Z.of_nat n <= two63 -> is_int64 i -> (i < 0 \/ Z.of_nat n <= i) ->
+  run_outs (seq_use1 n g) outs_use1 [VArr cells; VInt i] = Panic msg_op_oob.
+Proof.
+  intros n g cells i Hlen Hn Hi Ho.
+  unfold run_outs, seq_use1, outs_use1. step. opstep.
+  unfold op_sem at 1. cbn [sem_borrow]. rewrite (with_cell_out n cells i Hlen Hn) by assumption.
+  reflexivity.
+Qed.
+
+Lemma use1_lent_l : forall n g cells i,
+  length cells = n -> Z.of_nat n <= two63 -> 0 <= i < Z.of_nat n ->
+  nth_error cells (Z.to_nat i) = Some None ->
+  run_outs (seq_use1 n g) outs_use1 [VArr cells; VInt i] = Panic msg_already_borrowed.
+Proof.
+  intros n g cells i Hlen Hn Hi Hc.
+  unfold run_outs, seq_use1, outs_use1. step. opstep.
+  unfold op_sem at 1. cbn [sem_borrow]. rewrite (with_cell_in n cells i Hlen Hn) by assumption.
+  rewrite Hc. reflexivity.
+Qed.
+
+(** g(qs[i], qs[j]): two elements lent at the same time *)
+Lemma use2_same_index_l : forall n g cells i v,
+  length cells = n -> Z.of_nat n <= two63 -> 0 <= i < Z.of_nat n ->
+  nth_error cells (Z.to_nat i) = Some (Some v) ->
+  run_outs (seq_use2 n g) outs_use2 [VArr cells; VInt i; VInt i] = Panic msg_already_borrowed.
+Proof.
+  intros n g cells i v Hlen Hn Hi Hc.
+  pose proof (nth_error_lt _ _ _ _ Hc) as Hk.
+  unfold run_outs, seq_use2, outs_use2. step. opstep.
+  unfold op_sem at 1. cbn [sem_borrow]. rewrite (with_cell_in n cells i Hlen Hn) by assumption.
+  rewrite Hc. step. opstep.
+  unfold op_sem at 1. cbn [sem_borrow].
+  rewrite (with_cell_in n _ i (eq_trans (upd_length _ _ _ _) Hlen) Hn) by assumption.
+  rewrite upd_same by assumption. reflexivity.
+Qed.
+
+Lemma use2_distinct_l : forall n g cells i j vi vj,
+  length cells = n -> Z.of_nat n <= two63 -> 0 <= i < Z.of_nat n -> 0 <= j < Z.of_nat n -> i <> j ->
+  nth_error cells (Z.to_nat i) = Some (Some vi) ->
+  nth_error cells (Z.to_nat j) = Some (Some vj) ->
+  run_outs (seq_use2 n g) outs_use2 [VArr cells; VInt i; VInt j] = Ok [VArr cells].
+Proof.
+  intros n g cells i j vi vj Hlen Hn Hi Hj Hne Hci Hcj.
+  pose proof (nth_error_lt _ _ _ _ Hci) as Hki. pose proof (nth_error_lt _ _ _ _ Hcj) as Hkj.
+  assert (Hnk : Z.to_nat j <> Z.to_nat i) by lia.
+  assert (Hnk' : Z.to_nat i <> Z.to_nat j) by lia.
+  unfold run_outs, seq_use2, outs_use2. step. opstep.
+  unfold op_sem at 1. cbn [sem_borrow]. rewrite (with_cell_in n cells i Hlen Hn) by assumption.
+  rewrite Hci. step. opstep.
+  unfold op_sem at 1. cbn [sem_borrow].
+  rewrite (with_cell_in n _ j (eq_trans (upd_length _ _ _ _) Hlen) Hn) by assumption.
+  rewrite upd_other by assumption. rewrite Hcj. step.
+  unfold op_sem at 1. step. opstep.
+  unfold op_sem at 1. cbn [sem_return].
+  rewrite (with_cell_in n _ i (eq_trans (upd_length _ _ _ _) (eq_trans (upd_length _ _ _ _) Hlen)) Hn) by assumption.
+  rewrite upd_other by assumption. rewrite upd_same by assumption. step. opstep.
+  unfold op_sem at 1. cbn [sem_return].
+  rewrite (with_cell_in n _ j (eq_trans (upd_length _ _ _ _) (eq_trans (upd_length _ _ _ _) (eq_trans (upd_length _ _ _ _) Hlen))) Hn) by assumption.
+  rewrite upd_other by assumption. rewrite upd_same by (rewrite upd_length; assumption). step.
+  f_equal. f_equal. f_equal. apply nth_error_ext'. intros k.
+  destruct (Nat.eq_dec k (Z.to_nat j)) as [-> | Nj].
+  - rewrite upd_same by (rewrite !upd_length; assumption). symmetry. assumption.
+  - rewrite upd_other by assumption.
+    destruct (Nat.eq_dec k (Z.to_nat i)) as [-> | Ni].
+    + rewrite upd_same by (rewrite !upd_length; assumption). symmetry. assumption.
+    + rewrite !upd_other by assumption. reflexivity.
+Qed.
+
+Lemma use2_first_out_l : forall n g cells i j,
+  length cells = n -> Z.of_nat n <= two63 -> is_int64 i -> (i < 0 \/ Z.of_nat n <= i) ->
+  run_outs (seq_use2 n g) outs_use2 [VArr cells; VInt i; VInt j] = Panic msg_op_oob.
+Proof.
+  intros n g cells i j Hlen Hn Hi Ho.
+  unfold run_outs, seq_use2, outs_use2. step. opstep.
+  unfold op_sem at 1. cbn [sem_borrow]. rewrite (with_cell_out n cells i Hlen Hn) by assumption.
+  reflexivity.
+Qed.
+
+Lemma use2_second_out_l : forall n g cells i j vi,
+  length cells = n -> Z.of_nat n <= two63 -> 0 <= i < Z.of_nat n ->
+  nth_error cells (Z.to_nat i) = Some (Some vi) ->
+  is_int64 j -> (j < 0 \/ Z.of_nat n <= j) ->
+  run_outs (seq_use2 n g) outs_use2 [VArr cells; VInt i; VInt j] = Panic msg_op_oob.
+Proof.
+  intros n g cells i j vi Hlen Hn Hi Hci Hj Ho.
+  unfold run_outs, seq_use2, outs_use2. step. opstep.
+  unfold op_sem at 1. cbn [sem_borrow]. rewrite (with_cell_in n cells i Hlen Hn) by assumption.
+  rewrite Hci. step. opstep.
+  unfold op_sem at 1. cbn [sem_borrow].
+  rewrite (with_cell_out n _ j (eq_trans (upd_length _ _ _ _) Hlen) Hn) by assumption.
+  reflexivity.
+Qed.
+
+(** copy() *)
+Lemma copy_full_l : forall n vs, length vs = n ->
+  run_outs (seq_copy n) outs_copy [VArr (map Some vs)] = Ok [VArr (map Some vs); VArr (map Some vs)].
+Proof.
+  intros n vs Hlen. unfold run_outs, seq_copy, outs_copy. step.
+  unfold op_sem at 1. cbn [sem_clone]. unfold len_ok. rewrite map_length, Hlen, Nat.eqb_refl.
+  rewrite all_some_map. step. reflexivity.
+Qed.
+
+Lemma copy_lent_l : forall n cells k, length cells = n -> nth_error cells k = Some None ->
+  run_outs (seq_copy n) outs_copy [VArr cells] = Panic msg_some_borrowed.
+Proof.
+  intros n cells k Hlen Hc. unfold run_outs, seq_copy, outs_copy. step.
+  unfold op_sem at 1. cbn [sem_clone]. subst n. rewrite len_ok_refl.
+  rewrite (all_some_none _ _ _ Hc). reflexivity.
+Qed.
+
+(* ------------------------------------------- specification-side vocabulary (list semantics) *)
+
+(** [b] is [a] with exactly cell [k] replaced by [x]: same length, cell k is x, every other
+    cell is what it was. *)
+Definition only_cell_changed (k : nat) (x : option val) (a b : list (option val)) : Prop :=
+  length b = length a /\ nth_error b k = Some x /\ forall j, j <> k -> nth_error b j = nth_error a j.
+
+Lemma upd_only_cell_changed : forall l k x, (k < length l)%nat -> only_cell_changed k x l (upd l k x).
+Proof.
+  intros l k x H. split; [apply upd_length | split; [apply upd_same; assumption | intros; apply upd_other; assumption]].
+Qed.
+
+Lemma write_spec_l : forall n cells i v old,
+  length cells = n -> Z.of_nat n <= two63 -> 0 <= i < Z.of_nat n ->
+  nth_error cells (Z.to_nat i) = Some (Some old) ->
+  exists cells', run_outs (seq_set_classical n) outs_set_classical [VArr cells; VInt i; v] = Ok [VArr cells']
+                 /\ only_cell_changed (Z.to_nat i) (Some v) cells cells'.
+Proof.
+  intros. eexists. split. eapply write_in_range_l; eassumption.
+  apply upd_only_cell_changed. eapply nth_error_lt; eassumption.
+Qed.
+
+Lemma borrow_spec_l : forall n cells i v,
+  length cells = n -> Z.of_nat n <= two63 -> 0 <= i < Z.of_nat n ->
+  nth_error cells (Z.to_nat i) = Some (Some v) ->
+  exists cells', run_outs (seq_get_linear n) outs_get_linear [VArr cells; VInt i] = Ok [v; VArr cells']
+                 /\ only_cell_changed (Z.to_nat i) None cells cells'.
+Proof.
+  intros. eexists. split. eapply borrow_in_range_l; eassumption.
+  apply upd_only_cell_changed. eapply nth_error_lt; eassumption.
+Qed.
+
+Lemma return_spec_l : forall n cells i v,
+  length cells = n -> Z.of_nat n <= two63 -> 0 <= i < Z.of_nat n ->
+  nth_error cells (Z.to_nat i) = Some None ->
+  exists cells', run_outs (seq_set_linear n) outs_set_linear [VArr cells; VInt i; v] = Ok [VArr cells']
+                 /\ only_cell_changed (Z.to_nat i) (Some v) cells cells'.
+Proof.
+  intros. eexists. split. eapply return_in_range_l; eassumption.
+  apply upd_only_cell_changed. eapply nth_error_lt; eassumption.
 Qed.
